@@ -13,3 +13,9 @@ func (s *StateDB) VerifIterateAll(fn func(key, value []byte) bool) {
 func (s *StateDB) VerifAvailableVersions() []int { return s.tree.AvailableVersions() }
 
 func (s *IdentityStateDB) VerifAvailableVersions() []int { return s.tree.AvailableVersions() }
+
+// VerifGlobalBytes returns the stored encoding of the global object (next-block parameters).
+func (s *StateDB) VerifGlobalBytes() []byte {
+	_, v := s.tree.Get(globalKey)
+	return v
+}
